@@ -296,3 +296,28 @@ def run_impl(ctx, cases, tag="decomp", flavor="san"):
     exe = vf.impl_driver(ctx, flavor, wrap=WRAP, name="htp_driver_decomp", main="htp_driver_decomp.c")
     lines, bad = vf.run_sharded(ctx, exe, cases, tag + "-impl", shards=min(vf.NCPU, max(1, len(cases) // 40)))
     return lines, bad
+
+
+def run_model(ctx, lines, tag="decomp"):
+    mexe = vf.build_model_driver(ctx)
+    res, bad = vf.run_sharded(ctx, mexe, lines, tag + "-model", shards=min(vf.NCPU, max(1, len(lines) // 40)))
+    if bad is not None:
+        raise vf.CheckError("model driver failed on S-decomp line %d: rc=%s %s" % (bad[0], bad[1], bad[2][-500:]))
+    return res
+
+
+def correspond(ctx, cases, tag="decomp", flavor="san"):
+    """Two passes: the library (recording), then the model on case + recorded log.
+    Returns (impl_obs, impl_extra, logs, model_obs, model_extra, crash)."""
+    impl, bad = run_impl(ctx, cases, tag, flavor)
+    obs, extra, logs = [], [], []
+    for l in impl:
+        a, b, c = split_line(l)
+        obs.append(a); extra.append(b); logs.append(c)
+    mcases = [c + "\t" + lg for c, lg in zip(cases, logs)]
+    ml = run_model(ctx, mcases, tag)
+    mobs, mextra = [], []
+    for l in ml:
+        p = l.split(" | ")
+        mobs.append(p[0]); mextra.append(p[1] if len(p) > 1 else "")
+    return obs, extra, logs, mobs, mextra, bad
